@@ -101,6 +101,7 @@ type loopInfo struct {
 }
 
 type Exec struct {
+	sitePosOverride token.Pos
 	L     *Loaded
 	X     *Xlat
 	fn    *ssa.Function
